@@ -22,6 +22,9 @@ DIRS = [('SKIP', True, None), ('SKIP', False, None),
         ('REQUIRES', True, UA), ('REQUIRES', False, UA),
         ('REQUIRES', True, UB), ('REQUIRES', False, UB),
         ('IGNORE_WANT', True, None)]
+# options that have no part in deciding what runs
+BYSTANDERS = [('REPORT_NDIFF', False, None), ('REPORT_UDIFF', True, None), ('REPORT_CDIFF', False, None), ('REPORT_NDIFF', True, None),
+              ('ELLIPSIS', False, None), ('NORMALIZE_WHITESPACE', True, None), ('IGNORE_WHITESPACE', True, None), ('REPORT_ONLY_FIRST_FAILURE', False, None)]
 # one directive listing several conditions (met ones before, between and after unmet ones)
 MULTI_DIRS = [('REQUIRES', sign, ', '.join(args)) for sign in (True, False)
               for args in ((MET, UA), (UA, MET), (MET, UA, UB), (UA, MET, UB), (UB, UA), (MET, MET, UB), ('module:sys', UA), ('module:time',), ('module:itertools', 'module:sys'))]
@@ -353,6 +356,21 @@ def run(ctx):
             if rng.random() < 0.6:
                 events.append(('block', [rng.choice(MULTI_DIRS + DIRS[2:8])]))
             events.append(('stmt', [rng.choice(MULTI_DIRS)] if rng.random() < 0.35 else [], 41 + q))
+        cases.append(dict(doc=render(events, SHAPES[:3] + ['want']), expect=spec_trace(events), events=events))
+    # a directive comment that also lists options which have nothing to do with skipping (report style, comparison leniencies),
+    # before or after the skipping ones: they change nothing about which statements run
+    rng = ctx.rng('bystanders')
+    for _ in range(150 if ctx.tier == 'quick' else 2500):
+        events = [('stmt', [], 60)]
+        for q in range(rng.randint(2, 4)):
+            if rng.random() < 0.4:
+                ds = [rng.choice(DIRS), rng.choice(BYSTANDERS)]
+                rng.shuffle(ds)
+                events.append(('block', ds))
+            ds = ([rng.choice(DIRS)] if rng.random() < 0.7 else []) + [rng.choice(BYSTANDERS)]
+            rng.shuffle(ds)
+            events.append(('stmt', ds if rng.random() < 0.6 else [], 61 + q))
+        events.append(('stmt', [], 69))
         cases.append(dict(doc=render(events, SHAPES[:3] + ['want']), expect=spec_trace(events), events=events))
     # histories over one shared options dict (quantifier: histories x configurations)
     hists = []
